@@ -158,6 +158,13 @@ def run_impl(c):
         kw["id_spec"] = {"gene": c["gkey"], "transcript": c["tkey"]}
         if c.get("exon_key"):
             kw["id_spec"][c["sub"]] = c["exon_key"]
+    if c.get("feats2") and c["no_genes"] and c["no_transcripts"]:
+        # the older spelling of "no inference at all" (still accepted, with a warning), on both calls
+        import warnings
+        warnings.simplefilter("ignore")
+        kw.pop("disable_infer_genes")
+        kw.pop("disable_infer_transcripts")
+        kw["infer_gene_extent"] = False
     st, db = imp.run_create(c["feats"], fmt="gtf", text=c.get("text", False), **kw)
     if st == "err":
         return {"tables": ["err", db]}
